@@ -447,6 +447,7 @@ pub fn property() -> Property {
     Property {
         id: "C17",
         subs: vec![sub::<Dimacs>(), sub::<Sexpr>(), sub::<JsonBdd>(), sub::<JsonSdd>()],
+        fuzz: vec![],
         assumptions: vec![
             "DIMACS header counts are >= 1: the third-party dimacs lexer reads a bare 0 as the clause terminator, so 'p cnf 0 0' is rejected by that crate (outside the input domain); '+' signs and '%' end markers are not generated (rejected by that crate)",
             "s-expressions contain no True/False (todo!() in from_sexpr and excluded by the property) and whitespace only where serde_sexpr accepts it (between siblings); a text rejected by serde_sexpr is counted, not reported",
